@@ -25,7 +25,19 @@ RunBoxes(cur, bs, os, k) ==
 Atoms(cur) == [k \in 1..Len(cur) |-> cur[k][2]]
 Labels(cur) == [k \in 1..Len(cur) |-> cur[k][1]]
 
+\* semantic observations (tensor / pure circuit classes): the harness read the wire map q off the evaluated array
+\* (q[i] = 0-based output position of input wire i, isperm = 1 iff the array is exactly that permutation tensor);
+\* the arrangement it describes must be the requested one
+ArrOf(q) == [pos \in 1..Len(q) |-> CHOOSE w \in 1..Len(q) : q[w] = pos - 1]
+JSem(t) ==
+  IF t.exc # "" THEN "evaluation-of-swap-raised"
+  ELSE IF t.isperm # 1 \/ ~IsPerm(t.q) THEN "evaluates-to-something-that-is-no-wire-permutation"
+  ELSE IF t.kind = "semswap" THEN
+       (IF ArrOf(t.q) = SwapFinal(t.nl, t.nr) THEN "ok" ELSE "evaluated-swap-does-not-move-the-left-block-right")
+  ELSE IF PermOK(t.perm, ArrOf(t.q)) THEN "ok" ELSE "evaluated-permutation-does-not-send-wire-i-to-perm-i"
+
 J10(t) ==
+  IF t.kind \in {"semswap", "semperm"} THEN JSem(t) ELSE
   IF t.kind = "swap" THEN
      LET dm == t.lt \o t.rt IN
      IF t.exc # "" THEN "valid-swap-refused"
@@ -50,7 +62,7 @@ J10(t) ==
 
 \* algorithm level: the offsets are the ones the model's machine emits
 JDrift(t) ==
-  IF t.exc # "" THEN "ok"
+  IF t.exc # "" \/ t.kind \in {"semswap", "semperm"} THEN "ok"
   ELSE IF t.kind = "swap" THEN
        (IF t.res.offs = SwapOffs(Len(t.lt), Len(t.rt), 0) THEN "ok" ELSE "drift-offsets")
   ELSE "ok"
